@@ -38,11 +38,47 @@ def scratch_dir():
 _SCRATCH_PID = None
 
 
+def _shm_base():
+    return "/dev/shm" if os.path.isdir("/dev/shm") and os.access(
+        "/dev/shm", os.W_OK) else tempfile.gettempdir()
+
+
+def make_root():
+    """One scratch ROOT per top-level checker process (called by check.py);
+    every worker, confirmation child and sub-interpreter puts its files in a
+    sub-directory of it (they inherit TOPSIM_MC_SCRATCH_ROOT), and the
+    top-level process removes the whole root when it ends -- forked workers
+    leave through os._exit and never run their own atexit handlers.  Roots of
+    dead processes (killed runs) are swept here as well."""
+    base = _shm_base()
+    for name in os.listdir(base):
+        if name.startswith("topsim-mc-"):
+            parts = name.split("-")
+            pid = parts[2] if len(parts) > 3 and parts[2].isdigit() else None
+            if pid is not None and not os.path.exists("/proc/%s" % pid):
+                shutil.rmtree(os.path.join(base, name), ignore_errors=True)
+    root = tempfile.mkdtemp(prefix="topsim-mc-%d-" % os.getpid(), dir=base)
+    os.environ["TOPSIM_MC_SCRATCH_ROOT"] = root
+    return root
+
+
+def remove_root(root):
+    shutil.rmtree(root, ignore_errors=True)
+    if os.environ.get("TOPSIM_MC_SCRATCH_ROOT") == root:
+        del os.environ["TOPSIM_MC_SCRATCH_ROOT"]
+
+
 def _new_scratch():
     global _SCRATCH, _SCRATCH_PID
-    base = "/dev/shm" if os.path.isdir("/dev/shm") and os.access(
-        "/dev/shm", os.W_OK) else None
-    _SCRATCH = tempfile.mkdtemp(prefix="topsim-mc-", dir=base)
+    root = os.environ.get("TOPSIM_MC_SCRATCH_ROOT")
+    if root and os.path.isdir(root):
+        _SCRATCH = tempfile.mkdtemp(prefix="p%d-" % os.getpid(), dir=root)
+        _SCRATCH_PID = os.getpid()
+        return
+    # no top-level root (module used outside check.py): own directory,
+    # removed at exit of this very process
+    _SCRATCH = tempfile.mkdtemp(prefix="topsim-mc-%d-x-" % os.getpid(),
+                                dir=_shm_base())
     _SCRATCH_PID = os.getpid()
     d, pid = _SCRATCH, _SCRATCH_PID
 
